@@ -375,7 +375,9 @@ func validateAuthReqRedirectURINative(client Client, uri string) error {
 }
 
 func equalURI(url1, url2 *url.URL) bool {
-	return url1.Path == url2.Path && url1.RawQuery == url2.RawQuery
+	// a loopback redirect may only differ from the registered one in scheme, host spelling and port
+	return url1.Path == url2.Path && url1.RawQuery == url2.RawQuery &&
+		url1.Fragment == url2.Fragment && url1.User.String() == url2.User.String()
 }
 
 func HTTPLoopbackOrLocalhost(rawURL string) (*url.URL, bool) {
